@@ -38,6 +38,7 @@ uint64_t f_vf_soccc(uint64_t id);
 
 #define VF_NWIN 4
 extern uint64_t g_wit; /* witness byte index of run-time-length copies */
+extern uint8_t *g_wit_dst; /* witness destination address of run-time-length copies (absolute) */
 extern uint64_t g_win[VF_NWIN]; /* ghost offsets of 8-byte windows that run-time-length copies transfer faithfully */
 void *vf_memcpy(void *d, const void *s, uint64_t n);
 void *vf_memmove(void *d, const void *s, uint64_t n);
